@@ -39,8 +39,8 @@ RULE = (
     "a case is non-trivial if its key (kind, type, wire/text, style) is new"
 )
 TRUSTED_BASE = [
-    "binascii.hexlify/unhexlify, base64.b64encode/b64decode, base64.b32encode/b32decode as mutual inverses on their alphabets (hex is proved in the model; base64/base32 are parameters of the theorems)",
-    "time.gmtime/strftime and calendar.timegm as mutual inverses on 0..2^32-1 (RRSIG/SIG times: oracle only)",
+    "binascii.hexlify/unhexlify, base64.b64encode/b64decode, base64.b32encode/b32decode behave as the model's hex/base64/base32hex codecs (which are proved mutual inverses; tied by the correspondence ops)",
+    "time.gmtime/strftime and calendar.timegm behave as the model's civil-calendar conversion on 0..2^32-1 (proved inverse in the model by exhaustive kernel evaluation; tied by the RRSIG/SIG correspondence cases)",
     "Python str/bytes/int semantics: int(str, 10) on ASCII, str.encode() = UTF-8, bytes.split/isdigit",
 ]
 ASSUMPTIONS = [
@@ -551,9 +551,14 @@ MODEL = {
     "NSEC": ([("next", "nm")], ("windows", "wl")),
     "CSYNC": ([("serial", "u"), ("flags", "u")], ("windows", "wl")),
     "NSEC3": ([("algorithm", "u"), ("flags", "u"), ("iterations", "u"), ("salt", "b"), ("next", "b")], ("windows", "wl")),
+    "APL": ([], ("items", "apl")),
+    "WKS": ([], ("bitmap", "wks")),
+    "IPSECKEY": ([("precedence", "u"), ("gateway_type", "u"), ("algorithm", "u")], ("key", "gw")),
+    "AMTRELAY": ([("precedence", "u"), ("discovery_optional", "u"), ("relay_type", "u")], ("relay", "gw")),
 }
-B64_TAIL = {"DNSKEY", "CDNSKEY", "DHCID", "OPENPGPKEY", "BRID", "HHIT", "CERT", "KEY", "RRSIG", "SIG"}
-NOWIRE = {"HIP", "TKEY", "TSIG"}  # modelled without a wire codec: their generic form is oracle-only
+B64_TAIL = {"DNSKEY", "CDNSKEY", "DHCID", "OPENPGPKEY", "BRID", "HHIT", "CERT", "KEY", "RRSIG", "SIG", "IPSECKEY"}
+B64_TAIL_SKIP = {"IPSECKEY": 1}  # tokens of the tail before the base64 text (the gateway)
+NOWIRE = {"HIP", "TKEY", "TSIG", "IPSECKEY", "AMTRELAY", "APL", "WKS"}  # modelled without a wire codec: their generic form is oracle-only
 B64_ONE = {"HIP": ["key"], "TKEY": ["key"], "TSIG": ["mac", "other"]}  # base64 values read from a single token
 TXT_LIKE = {"TXT", "SPF", "AVC", "NINFO", "RESINFO", "WALLET"}
 
@@ -579,16 +584,35 @@ def _fv(v, kind):
         return "u" + str(len(v))
     if kind == "nl":
         return "m" + ";".join(enc_labels(x.labels) for x in v)
+    if kind == "apl":
+        def addr(it):
+            if it.family == 1:
+                return socket.inet_pton(socket.AF_INET, it.address)
+            if it.family == 2:
+                return socket.inet_pton(socket.AF_INET6, it.address)
+            return binascii.unhexlify(it.address)
+        return "a" + ";".join(f"{int(it.family)}:{1 if it.negation else 0}:{hx(addr(it))}:{int(it.prefix)}" for it in v)
     if kind == "wl":
         return "w" + ";".join(f"{int(w)}:{hx(bytes(bm))}" for w, bm in v)
     raise ValueError(kind)
+
+
+def _gw(tname, rd):
+    """IPSECKEY gateway + key / AMTRELAY relay: g<type>|<address text>|<name>|<key>"""
+    ty, g, key = (rd.gateway_type, rd.gateway, rd.key) if tname == "IPSECKEY" else (rd.relay_type, rd.relay, b"")
+    addr = g if isinstance(g, str) else ""
+    nm = enc_labels(g.labels) if isinstance(g, dns.name.Name) else "@"
+    return f"g{int(ty)}|{cps(addr)}|{nm}|{hx(bytes(key))}"
 
 
 def dump(tname, rd):
     fields, tail = MODEL[tname]
     out = [("b" + hx(rd.to_wire()[2:])) if kind == "wire2" else _fv(getattr(rd, slot), kind) for slot, kind in fields]
     out.append("/")
-    out.append("-" if tail is None else _fv(getattr(rd, tail[0]), tail[1]))
+    if tail is not None and tail[1] == "wks":
+        out.append(f"k{hx(socket.inet_pton(socket.AF_INET, rd.address))}:{int(rd.protocol)}:{hx(bytes(rd.bitmap))}")
+        return " ".join(out)
+    out.append("-" if tail is None else _gw(tname, rd) if tail[1] == "gw" else _fv(getattr(rd, tail[0]), tail[1]))
     return " ".join(out)
 
 
@@ -599,6 +623,9 @@ def ascii_only_names(text):
 def corr_print(ctx, c, tname, rd, st, origin, text):
     """text: the implementation's to_styled_text output or None when it raised"""
     if tname not in MODEL:
+        return
+    if tname == "APL" and any(it.family not in (1, 2) for it in rd.items):
+        ctx.count("corr.skip.apl-unknown-family(no text form: known finding D18)")
         return
     o = origin if st.get("o") else None
     op = (f"c05.print {tname} o={enc_optname(o)} r={1 if st.get('rel') else 0} hc={st.get('hcs', 128)} hs={cps(st.get('hsep', ' '))} "
@@ -611,12 +638,27 @@ def model_corr_fromtext(ctx, c, tname, text, origin, rel, rd, relto=None):
     if tname not in MODEL and not tname.startswith("TYPE"):
         return
     generic = text.lstrip(" \t(").startswith("\\#")
-    if tname in MODEL and any(k == "nm" for _, k in MODEL[tname][0]) and not ascii_only_names(text):
+    if tname in MODEL and (any(k == "nm" for _, k in MODEL[tname][0]) or (MODEL[tname][1] or ("", ""))[1] in ("nl", "gw")) and not ascii_only_names(text):
         ctx.count("corr.skip.non-ascii-with-name-field(IDNA)")
         return
     if generic and tname in NOWIRE:
         ctx.count("corr.skip.generic-form-of-type-without-model-wire-codec")
         return
+    if tname == "WKS":
+        # protocol / service mnemonics go through the host's getprotobyname / getservbyname: outside the model
+        try:
+            tk = dns.tokenizer.Tokenizer(text)
+            vals = []
+            while True:
+                t = tk.get()
+                if t.is_eol_or_eof():
+                    break
+                vals.append(t.unescape().value)
+            if any(not v.isdecimal() or any(ord(ch) > 127 for ch in v) for v in vals[1:]):
+                ctx.count("corr.skip.wks-mnemonic-or-non-ascii-digits")
+                return
+        except Exception:
+            pass
     if rd is not None and tname in B64_ONE and not generic:
         try:
             toks = ["".join(chr(int(x)) for x in t.split(":", 1)[1].split(",")) if not t.endswith(":-") else "" for t in lex_impl(text).split(" ") if t]
@@ -638,7 +680,7 @@ def model_corr_fromtext(ctx, c, tname, text, origin, rel, rd, relto=None):
         fields, tail = MODEL[tname]
         blob = getattr(rd, tail[0])
         try:
-            vals = [t.split(":", 1)[1] for t in lex_impl(text).split(" ") if t][len(fields):]
+            vals = [t.split(":", 1)[1] for t in lex_impl(text).split(" ") if t][len(fields) + B64_TAIL_SKIP.get(tname, 0):]
             concat = "".join("".join(chr(int(x)) for x in v.split(",")) if v != "-" else "" for v in vals)
         except Exception:
             concat = None
@@ -900,7 +942,9 @@ MISC_ATOMS = ["0123456789abcdefghijklmnopqrstuv", "2t7b4g4vsa5smi47k61mv5bv1a22b
               "0x", "0x47.0005.80", "0x47000580", "0X47", "0x4", "x47", "0x4g",
               "RSASHA256", "rsasha1", "PRIVATEOID", "8", "256", "PKIX", "A", "NS", "TYPE1", "TYPE65536", "TYPE0", "NOTIFY", "N", "S", "E", "W", "10m", "-100001m",
               "99999999999m", "nanm", "infm", "1e3m", "4435.61m", "0.07m", "90000000.00m", "(", ")", ";c", "TCP", "tcp", "smtp", "0x", "0xab", "-", "!1:1.2.3.4/8",
-              "1:0.0.0.0/0", "3:ab/8", "alpn=h2", 'alpn="h2,h3"', "port=53", "no-default-alpn", "key65280=abc", "mandatory=alpn", "20240101000000", "1700000000"]
+              "1:0.0.0.0/0", "3:ab/8", "2:::/0", "!2:1::/128", "2:1::/129", "1:1.2.3.4/33", "1:1.2.3.4/+8", "+1:1.2.3.4/8", "0x1:1.2.3.4/8", "1:1.2.3.4",
+              "1.2.3.4/8", "!", "!!1:1.2.3.4/8", "1:1.2.3.4/8/9", "1:2:1.2.3.4/8", "2:1:2::3/64", "65536:ab/8", "-0:ab/8", '"1:1.2.3.4/8"', "1_0:1.2.3.4/8",
+              "01:1.2.3.4/08", "1:1.2.3.4/-0", "1:1.2.3.4/", ":1.2.3.4/8", "2:::ffff:1.2.3.4/96", "1:01.2.3.4/8", "alpn=h2", 'alpn="h2,h3"', "port=53", "no-default-alpn", "key65280=abc", "mandatory=alpn", "20240101000000", "1700000000"]
 ALL_ATOMS = NUM_ATOMS + STR_ATOMS + NAME_ATOMS + BLOB_ATOMS + ADDR_ATOMS + MISC_ATOMS
 CHAR_POOL = ['"', "\\", " ", "\t", ";", "(", ")", "\n", ".", "@", "0", "9", "a", "Z", "\x00", "\x7f", "\xe9", "=", ",", "-", "+", "_", ":", "/", "!"]
 
@@ -1140,14 +1184,17 @@ def gen_ft(ctx: Ctx, scale: float, rng):
 # per-type status of the Lean side (mirrors C05.provedTypes / Model.modelledTypes; the oracle covers every type)
 PROVED = ["A", "AAAA", "NS", "CNAME", "PTR", "DNAME", "NSAP-PTR", "MX", "AFSDB", "RT", "KX", "LP", "PX", "SRV", "RP", "SOA", "TXT", "SPF", "AVC",
           "NINFO", "RESINFO", "WALLET", "HINFO", "X25", "ISDN", "NAPTR", "CAA", "URI", "DS", "DLV", "CDS", "TLSA", "SMIMEA", "SSHFP", "ZONEMD", "DNSKEY",
-          "CDNSKEY", "DHCID", "OPENPGPKEY", "BRID", "HHIT", "L32", "NSEC3PARAM", "CH-A", "EUI48", "EUI64", "NID", "L64", "NSAP", "CERT", "DSYNC", "KEY", "RRSIG", "SIG", "NSEC", "CSYNC", "NSEC3", "HIP", "TKEY", "TSIG"]
+          "CDNSKEY", "DHCID", "OPENPGPKEY", "BRID", "HHIT", "L32", "NSEC3PARAM", "CH-A", "EUI48", "EUI64", "NID", "L64", "NSAP", "CERT", "DSYNC", "KEY", "RRSIG", "SIG", "NSEC", "CSYNC", "NSEC3", "HIP", "TKEY", "TSIG",
+          "IPSECKEY", "AMTRELAY", "APL", "WKS"]
 
 
 def type_status():
     out = {}
     for (_, _, tname, _) in TYPES:
-        if tname in PROVED:
-            out[tname] = "proved (model + correspondence + parseText_printText)"
+        if tname in PROVED and tname in NOWIRE:
+            out[tname] = "proved (model + correspondence + parseText_printText; to_wire / generic form oracle-only)"
+        elif tname in PROVED:
+            out[tname] = "proved (model + correspondence + parseText_printText + text_accepts_encodable)"
         elif tname in MODEL:
             out[tname] = "modelled (model + correspondence; no round-trip lemma for one of its field kinds yet)"
         elif tname == "OPT":
@@ -1237,8 +1284,8 @@ def impl_of_op(op: str) -> str:
 
 
 LEVEL = {
-    "text": "Lean 4 theorems over executable models of the text codecs (dns/ipv4.py, dns/ipv6.py in full, dns.rdata._escapify, Token.unescape / unescape_to_bytes, the tokenizer as one automaton, _escapify_unicode and the txt_is_utf8 style of the TXT-like types, _wordbreak chunking with concatenate_remaining_identifiers, Python int()/dns.ttl, hex and base64, name fields on top of the C01 model, the generic \\# form with its re-encode check, and a per-type schema table for 44 record classes): inet_aton(inet_ntoa(a)) = a for IPv4 and IPv6 (every zero-run / embedded-IPv4 shape), the quoted character-string round trip for all 256 octets on the octet path (TXT-like types and, since the fix commits 6aa8f9c/210fbe5, HINFO/ISDN/X25/NAPTR/CAA/URI), with the code-point path get_string characterised separately (exact below 0x80, counter-example proved), blob round trips under every lossless chunking style, the generic form of unknown and known types, and parse(print v) = v through dns.rdata.from_text for every schema type whose field kinds have a lemma (43 classes). Tied to the code by a differential correspondence check on every modelled function (print and parse direction, malformed streams) and by constants/tables regenerated from the working tree; completed by a direct round-trip / totality / encodability oracle on the implementation over all 69 implemented record classes.",
-    "note": "Trusted: Lean kernel + propext/Classical.choice/Quot.sound; the statements in lean/Props/C05.lean; the correspondence harness and its generators (differential testing bounds the tie); the implementation's base64/base32/time modules (the model's own base64 codec is proved). 25 record classes (LOC, APL, SVCB/HTTPS, NSEC/NSEC3/CSYNC, RRSIG/SIG, KEY, CERT, HIP, IPSECKEY, AMTRELAY, WKS, GPOS, NSAP, NID/L64, EUI48/64, DSYNC, TKEY, TSIG, OPT) are covered by the oracle only; Chaosnet A is modelled and tied but has no round-trip lemma (octal field); name fields are proved for the configurations that do not rewrite names (no origin, or absolute names with relativize=False) and tied/oracle-checked for the others. Per-type status is written to the evidence (coverage.type_status).",
+    "text": "Lean 4 theorems over executable models of the text codecs (dns/ipv4.py, dns/ipv6.py in full, dns.rdata._escapify, Token.unescape / unescape_to_bytes, the tokenizer as one automaton, _escapify_unicode and the txt_is_utf8 style of the TXT-like types, _wordbreak chunking with concatenate_remaining_identifiers, Python int()/dns.ttl, hex, base64 and base32hex, mnemonic tables (rdatatype, DNSSEC algorithm, CERT type, DSYNC scheme, KEY flags/protocol, rcode), RRSIG times through the civil-calendar conversion (checked exhaustively over 1970-01-01..2106-02-07), NSEC/NSEC3/CSYNC type bitmaps (on top of C15's from_rdtypes), name fields on top of the C01 model under every origin/relativize configuration that does not rewrite names, the generic \\# form with its re-encode check, and a per-type schema table for 60 record classes): inet_aton(inet_ntoa(a)) = a for IPv4 and IPv6 (every zero-run / embedded-IPv4 shape), the quoted character-string round trip for all 256 octets on the octet path, with the code-point path get_string characterised separately (exact below 0x80, counter-example proved), blob round trips under every lossless chunking style, the generic form of unknown and known types, parse(print v) = v through dns.rdata.from_text for all 60 schema classes (parseText_printText), and `accepted from text => encodable to wire` (text_accepts_encodable) for the 57 of them whose wire form is modelled. Tied to the code by a differential correspondence check on every modelled function (print, parse and to_wire direction, malformed streams) and by constants/tables regenerated from the working tree; completed by a direct round-trip / totality / encodability oracle on the implementation over all 69 implemented record classes.",
+    "note": "Trusted: Lean kernel + propext/Classical.choice/Quot.sound; the statements in lean/Props/C05.lean; the correspondence harness and its generators (differential testing bounds the tie). 9 record classes (LOC, APL, SVCB, HTTPS, IPSECKEY, AMTRELAY, WKS, GPOS, OPT) are covered by the oracle only; HIP, TKEY, TSIG have a proved text round trip but their to_wire (and therefore their generic form and encodability) is oracle-only. text_accepts_encodable is stated over the model's own to_wire (encRec, tied by the correspondence op c05.wire.enc); it is not composed with the C02 message codec theorems because C02 models different field kinds. Name fields: proved unchanged for (a) no origin anywhere, (b) absolute names with relativize=False under any origin, (c) the zone-file configuration (absolute origin, relativize=True; printing against no origin or the same origin); in the remaining configurations as_name provably returns nameBack (the derelativized / re-relativized name), which is equal modulo the origin. Per-type status is written to the evidence (coverage.type_status).",
     "technique": "Lean 4 proof (escape and tokenizer automata, combinator round trips lifted over a schema table, IPv6 zero-run selection by exhaustive case analysis of the 256 zero patterns + list theory for split/join) + model-vs-implementation correspondence + direct oracle",
     "design_ref": "DESIGN.md §7 C05",
 }
